@@ -124,7 +124,9 @@ def build_classification(group):
 
 
 ISOLATED = [('msg', 'other'), ('map', 'other'), ('map', 'same'), ('enum', 'same'), ('enum', 'other'), ('enum-then-msg', 'same'),
-            ('scalar', 'same'), ('map-enum', 'other')]
+            ('scalar', 'same'), ('map-enum', 'other'),
+            # token fields declared proto3-optional (each sits in a synthetic oneof): still string fields
+            ('msg+optional-tokens', 'same'), ('msg+optional-page_token', 'same'), ('msg+optional-next_page_token', 'other')]
 
 
 def build_isolated(lay, loc):
@@ -136,6 +138,7 @@ def build_isolated(lay, loc):
     item = ITEM_LOC[loc]
     shade = Q('Shade') if loc == 'same' else Q('OtherShade')
     rf, nested, layout = [], [], []
+    lay, _, opt = lay.partition('+')
     if lay == 'msg':
         rf.append(field('items', 1, item, repeated=True)); layout.append(['items', 'msg'])
     elif lay == 'scalar':
@@ -151,9 +154,10 @@ def build_isolated(lay, loc):
     elif lay == 'enum-then-msg':
         rf.append(field('shades', 1, 'enum:' + shade, repeated=True)); layout.append(['shades', 'enum'])
         rf.append(field('items', 2, item, repeated=True)); layout.append(['items', 'msg'])
-    rf.append(field('next_page_token', 5, 'string'))
+    rf.append(field('next_page_token', 5, 'string', optional=opt in ('optional-tokens', 'optional-next_page_token')))
     msgs = [message('Item', [field('name', 1, 'string')]),
-            message('Rq', [field('parent', 1, 'string'), field('page_token', 2, 'string'), field('page_size', 3, 'int32')]),
+            message('Rq', [field('parent', 1, 'string'), field('page_token', 2, 'string', optional=opt in ('optional-tokens', 'optional-page_token')),
+                           field('page_size', 3, 'int32')]),
             message('Rs', rf, nested=nested)]
     main = file('acme/pg/v1/svc.proto', P, messages=msgs, enums=[enum('Shade', 'SHADE_UNSPECIFIED', 'DARK', 'LIGHT')],
                 services=[service('Pg', [method('ListIt', Q('Rq'), Q('Rs'))])])
@@ -162,7 +166,7 @@ def build_isolated(lay, loc):
     main.dependency.extend(std + [other.name])
     req = request([other, main], 'transport=grpc,autogen-snippets=false')
     desc.gate(req)
-    cell = dict(id=f'isolated/{lay}/{loc}', rpc='ListIt', py='list_it', req=Q('Rq'), resp=Q('Rs'), expected=True,
+    cell = dict(id=f'isolated/{lay}{"+" + opt if opt else ""}/{loc}', rpc='ListIt', py='list_it', req=Q('Rq'), resp=Q('Rs'), expected=True,
                 first_rep=layout[0], layout=layout, item=item)
     return req, [cell]
 
